@@ -577,10 +577,15 @@ Definition render_event (e : event) : list (list N) :=
 Definition bool_N (b : bool) : N := if b then 1 else 0.
 Definition opt_N (o : option N) : list N := match o with Some x => [1; x] | None => [0] end.
 
+(** Length and a rolling checksum of a buffer (compared after every operation;
+    the octets themselves are compared through the wire and the events). *)
+Definition digest (l : bytes) : list N :=
+  [N.of_nat (length l); fold_left (fun h b => (h * 31 + b) mod 4294967296) l 7].
+
 (** Everything the harness compares after each operation. *)
 Definition render_state (s : ep) : list (list N) :=
   [ [state s; bool_N (in_conn s); bool_N (in_sess s); bool_N (in_term s); bool_N (closed s); bool_N (rx_alive s)];
-    rx_buf s; msg_tx s; conn_tx s;
+    digest (rx_buf s); digest (msg_tx s); digest (conn_tx s);
     [N.of_nat (n_io s); N.of_nat (n_idle s); N.of_nat (n_pq s)];
     [seg_size s; keepalive_time s];
     opt_N (ka_due s); opt_N (idle_due s);
